@@ -175,7 +175,7 @@ Theorem C12_unwrap_num_each_once :
 Proof. exact @unwrap_num_each_once. Qed.
 Print Assumptions C12_unwrap_num_each_once.
 
-(* Wrappers constructed under eqx.filter_vmap (BijectionReparam, Lambda: their integer _dummy array then has a leading axis
+(* Wrappers constructed under eqx.filter_vmap (BijectionReparam, Where, Lambda: their integer _dummy array then has a leading axis
    of size n): unwrapping gives the STACK over i of the unwrapped i-th slice (every array field sliced along axis 0, other
    fields shared).  The slices carry the remaining batch axes, so iterating this equation covers any number of levels. *)
 Theorem C12_unwrap_vmapped :
